@@ -60,6 +60,9 @@ class SpecSim(Sim):
         for _ in range(14):
             k = rng.choice([2, 2, 3])
             specs.append(' '.join(rng.choice(atoms) for _ in range(k)))
+        # white space separates specifiers; at the ends of the request it separates nothing
+        a0 = rng.choice(atoms)
+        specs += [a0 + ' ', ' ' + a0, a0 + '\n', '\t%s  %s ' % (a0, rng.choice(atoms))]
         langs = [None, None] + sorted({d['language'] for d in docs.values()}) + ['xx', 'EN', 'en']
         return [(s, rng.choice(langs)) for s in specs]
 
